@@ -171,12 +171,18 @@ def run_impl(mod, cases, per_case_timeout=None, shards=8):
         if not chunk:
             return []
         inp = json.dumps({'id': mod.ID, 'timeout': per_case_timeout or getattr(mod, 'CASE_TIMEOUT', 5), 'cases': chunk})
-        p = subprocess.run([PY, '-W', 'ignore', os.path.join(VERIF, 'harness', 'impl_worker.py')], input=inp, capture_output=True, text=True, env=env,
-                           timeout=60 + len(chunk) * (per_case_timeout or getattr(mod, 'CASE_TIMEOUT', 5)))
-        line = [l for l in p.stdout.split('\n') if l.startswith('RESULTS ')]
-        if not line:
-            raise RuntimeError('impl worker failed: ' + p.stderr[-2000:] + p.stdout[-500:])
-        return json.loads(line[-1][8:])
+        last = ''
+        for attempt in range(3):       # a worker that dies without output (machine pressure) is retried before it counts
+            p = subprocess.run([PY, '-W', 'ignore', os.path.join(VERIF, 'harness', 'impl_worker.py')], input=inp, capture_output=True, text=True, env=env,
+                               timeout=60 + len(chunk) * (per_case_timeout or getattr(mod, 'CASE_TIMEOUT', 5)))
+            line = [l for l in p.stdout.split('\n') if l.startswith('RESULTS ')]
+            if line:
+                return json.loads(line[-1][8:])
+            last = 'rc=%s ' % p.returncode + p.stderr[-2000:] + p.stdout[-500:]
+            if p.stderr.strip():       # a real error (import failure, syntax error in the tree): no point retrying
+                break
+            time.sleep(2)
+        raise RuntimeError('impl worker failed: ' + last)
     with ThreadPoolExecutor(shards) as ex:
         parts = list(ex.map(work, chunks))
     res = [None] * len(cases)
